@@ -787,3 +787,355 @@ Proof.
   - intros E. apply Some_inj in E. subst s'. apply InvX_complete; assumption.
   - discriminate.
 Qed.
+
+(* ---------------- loop threads ---------------- *)
+Lemma lp_set_loop_same s l x : lp (set_loop s l x) l = x.
+Proof. unfold set_loop, set_lp, updf. cbn. rewrite Nat.eqb_refl. reflexivity. Qed.
+
+Lemma InvX_set_loop c s l x' :
+  InvX c s ->
+  l_wq x' ++ l_local x' = l_wq (lp s l) ++ l_local (lp s l) ->
+  (l_in_done x' = false -> l_local x' = []) ->
+  (forall r, l_pc (lp s l) <> LCancel3 r) ->
+  (forall r, l_pc x' <> LCancel2 r) -> (forall r, l_pc x' <> LCancel3 r) ->
+  (l_pc x' = LWorkDone \/ l_pc x' = LDrain -> l_in_done x' = false) ->
+  InvX c (set_loop s l x').
+Proof. intros. unfold InvX. apply (IV_loop c (Q s) (nreq s) (reqs s) (runof s) (lp s) (trace s)); assumption. Qed.
+
+Lemma InvX_local c s l : InvX c s -> l_in_done (lp s l) = false -> l_local (lp s l) = [].
+Proof. intros H. destruct H. auto. Qed.
+
+Lemma InvX_settle c s l :
+  InvX c s -> l_pc (lp s l) = LReady -> l_in_done (lp s l) = false -> InvX c (settle l s).
+Proof.
+  intros H Hpc Hd. unfold settle.
+  destruct (l_prog (lp s l)).
+  - apply InvX_set_loop; auto; cbn.
+    + intros _. apply (InvX_local c); assumption.
+    + intros r. rewrite Hpc. discriminate.
+    + intros r. destruct (Nat.eqb (l_active (lp s l)) 0); discriminate.
+    + intros r. destruct (Nat.eqb (l_active (lp s l)) 0); discriminate.
+  - apply InvX_set_loop; auto; cbn.
+    + intros _. apply (InvX_local c); assumption.
+    + intros r. rewrite Hpc. discriminate.
+    + discriminate.
+    + discriminate.
+Qed.
+
+Lemma InvX_deliver c l : forall loc s,
+  InvX c s -> l_local (lp s l) = loc -> l_in_done (lp s l) = true -> l_pc (lp s l) = LReady ->
+  InvX c (deliver c l loc s).
+Proof.
+  induction loc as [|r rest IH]; intros s H Hloc Hd Hpc; cbn [deliver].
+  - apply InvX_settle.
+    + apply InvX_set_loop.
+      * apply InvX_shape with (s := s); [apply shape_emit; exact I|reflexivity|exact H].
+      * cbn. rewrite Hloc, !app_nil_r. reflexivity.
+      * reflexivity.
+      * intros r. cbn. rewrite Hpc. discriminate.
+      * intros r. cbn. rewrite Hpc. discriminate.
+      * intros r. cbn. rewrite Hpc. discriminate.
+      * reflexivity.
+    + rewrite lp_set_loop_same. cbn. exact Hpc.
+    + rewrite lp_set_loop_same. reflexivity.
+  - set (status := match r_work (reqs s r) with WCancelled => UV_ECANCELED | _ => 0%Z end).
+    set (x1 := lset_active (lset_local (lp s l) rest) (pred (l_active (lp s l)))).
+    set (s3 := emit (set_loop (set_rst s r (Done status)) l x1) (EDone r l status)).
+    assert (H3 : InvX c s3).
+    { unfold InvX.
+      eapply IV_ext;
+        [apply (IV_deliver1 c (Q s) (nreq s) (reqs s) (runof s) (lp s) (trace s) l r rest x1 status);
+         auto | ..]; try reflexivity. }
+    assert (L3 : lp s3 l = x1) by apply lp_set_loop_same.
+    change (InvX c match c_beh c r with
+                   | [] => deliver c l rest s3
+                   | o :: ops => set_loop s3 l (lset_pc (lset_cb (lp s3 l) (o :: ops)) LReady)
+                   end).
+    destruct (c_beh c r) as [|o ops].
+    + apply IH; auto; rewrite L3; unfold x1; cbn; auto.
+    + apply InvX_set_loop; auto; rewrite L3; unfold x1; cbn; try discriminate; try reflexivity.
+      * intros X. congruence.
+      * intros r0. rewrite Hpc. discriminate.
+      * intros [X|X]; discriminate.
+Qed.
+
+Lemma pop_op_facts x :
+  l_wq (pop_op x) = l_wq x /\ l_local (pop_op x) = l_local x /\
+  l_in_done (pop_op x) = l_in_done x /\ l_pc (pop_op x) = l_pc x.
+Proof. unfold pop_op. destruct (l_cb x); cbn; auto. Qed.
+
+Lemma InvX_advance c l s :
+  InvX c s -> l_pc (lp s l) = LReady -> InvX c (advance c l s).
+Proof.
+  intros H Hpc. unfold advance.
+  destruct (pop_op_facts (lp s l)) as [P1 [P2 [P3 P4]]].
+  set (x := pop_op (lp s l)) in *.
+  assert (H1 : InvX c (set_loop s l x)).
+  { apply InvX_set_loop; auto.
+    - rewrite P1, P2. reflexivity.
+    - rewrite P2, P3. apply (InvX_local c). exact H.
+    - intros r. rewrite Hpc. discriminate.
+    - intros r. rewrite P4, Hpc. discriminate.
+    - intros r. rewrite P4, Hpc. discriminate.
+    - rewrite P4, Hpc. intros [X|X]; discriminate. }
+  cbv zeta. destruct (l_cb x) as [|o ops] eqn:Ecb.
+  - destruct (l_in_done x) eqn:Ed.
+    + apply InvX_deliver; auto; rewrite lp_set_loop_same; auto. congruence.
+    + apply InvX_settle; auto; rewrite lp_set_loop_same; auto. congruence.
+  - apply InvX_set_loop; auto; rewrite ?lp_set_loop_same; cbn; try discriminate; auto.
+    + intros X. rewrite P2. apply (InvX_local c); auto. congruence.
+    + intros r. rewrite P4, Hpc. discriminate.
+    + intros [X|X]; discriminate.
+Qed.
+
+Lemma post_facts c l aux r k s :
+  shape s (post c l aux r k s) /\ Permutation (Q (post c l aux r k s)) (r :: Q s).
+Proof.
+  assert (Fast : shape s (sync_ev (signal_if_idle c l aux
+                   (set_wq (sync_ev s l SLock) (wq (sync_ev s l SLock) ++ [IWork r]))) l SUnlock) /\
+                 Permutation (Q (sync_ev (signal_if_idle c l aux
+                   (set_wq (sync_ev s l SLock) (wq (sync_ev s l SLock) ++ [IWork r]))) l SUnlock))
+                   (r :: Q s)).
+  { split.
+    - eapply shape_trans; [apply shape_sync|]. eapply shape_trans; [apply shape_set_wq|].
+      eapply shape_trans; [apply signal_if_idle_facts|]. apply shape_sync.
+    - unfold Q. cbn [wq sp sync_ev emit].
+      destruct (signal_if_idle_facts c l aux
+                  (set_wq (sync_ev s l SLock) (wq (sync_ev s l SLock) ++ [IWork r]))) as [_ [X1 X2]].
+      cbn [wq sp sync_ev emit] in X1, X2. rewrite X1, X2. cbn [wq sp set_wq].
+      rewrite wq_reqs_app. cbn. rewrite <- app_assoc. cbn.
+      apply Permutation_sym, Permutation_middle. }
+  unfold post. destruct k; try exact Fast. cbv zeta.
+  destruct (has_marker (wq (set_sp (sync_ev s l SLock) (sp (sync_ev s l SLock) ++ [r])))).
+  - split.
+    + eapply shape_trans; [apply shape_sync|]. eapply shape_trans; [apply shape_set_sp|].
+      apply shape_sync.
+    + unfold Q. cbn. rewrite app_assoc. apply Permutation_sym, Permutation_cons_append.
+  - split.
+    + eapply shape_trans; [apply shape_sync|]. eapply shape_trans; [apply shape_set_sp|].
+      eapply shape_trans; [apply shape_set_wq|].
+      eapply shape_trans; [apply signal_if_idle_facts|]. apply shape_sync.
+    + unfold Q. cbn [wq sp sync_ev emit].
+      match goal with |- context[signal_if_idle c l aux ?y] =>
+        destruct (signal_if_idle_facts c l aux y) as [_ [X1 X2]] end.
+      rewrite X1, X2. cbn [wq sp set_wq set_sp sync_ev emit].
+      rewrite wq_reqs_app. cbn. rewrite app_nil_r, app_assoc.
+      apply Permutation_sym, Permutation_cons_append.
+Qed.
+
+Lemma InvX_submit c l aux k s :
+  InvX c s -> l < c_loops c -> l_pc (lp s l) = LReady ->
+  let r := nreq s in
+  let x := lp s l in
+  let s1 := set_loop (set_req (set_nreq (emit s (ESubmit r l k)) (S r)) r (mkReq l k WFn Queued))
+                     l (lset_active x (S (l_active x))) in
+  InvX c (post c l aux r k s1) /\ l_pc (lp (post c l aux r k s1) l) = LReady.
+Proof.
+  intros H Hl Hpc r x s1.
+  destruct (post_facts c l aux r k s1) as [[A1 [A2 [A3 [A4 [evs [A5 A6]]]]]] HP]. split.
+  - unfold InvX.
+    eapply IV_ext;
+      [apply IV_neutrals; [exact A6|];
+       apply (IV_loop c (Q (post c l aux r k s1)) (S r) (updf (reqs s) r (mkReq l k WFn Queued))
+                      (runof s) (lp s) (ESubmit r l k :: trace s) l (lset_active x (S (l_active x))));
+       [apply IV_submit with (q := Q s); [exact H | exact HP | exact Hl] | ..] | ..].
+    + reflexivity.
+    + intros X. apply (InvX_local c); [exact H|exact X].
+    + intros r0. rewrite Hpc. discriminate.
+    + intros r0. unfold x. cbn. rewrite Hpc. discriminate.
+    + intros r0. unfold x. cbn. rewrite Hpc. discriminate.
+    + unfold x. cbn. rewrite Hpc. intros [X|X]; discriminate.
+    + reflexivity.
+    + exact A1.
+    + intros r0. rewrite A2. reflexivity.
+    + exact A4.
+    + intros l0. rewrite A3. reflexivity.
+    + rewrite A5. reflexivity.
+  - rewrite A3. unfold s1. rewrite lp_set_loop_same. cbn. exact Hpc.
+Qed.
+
+Lemma InvX_wd c s l :
+  InvX c s -> l_pc (lp s l) = LWorkDone \/ l_pc (lp s l) = LDrain -> l_in_done (lp s l) = false.
+Proof. intros H. destruct H. auto. Qed.
+
+Lemma cancel_bool s l r :
+  (existsb (is_work r) (wq s) || mem r (sp s) || mem r (l_wq (lp s l)) || mem r (l_local (lp s l)))
+  && match r_work (reqs s r) with WNull => false | _ => true end = true <->
+  ((In r (Q s) \/ In r (l_wq (lp s l)) \/ In r (l_local (lp s l))) /\ r_work (reqs s r) <> WNull).
+Proof.
+  unfold Q. rewrite andb_true_iff, !orb_true_iff, is_work_In, !mem_In, in_app_iff.
+  destruct (r_work (reqs s r)); intuition congruence.
+Qed.
+
+Lemma InvX_lcancel3 c l r s :
+  InvX c s -> l_pc (lp s l) = LCancel3 r ->
+  let x := lp s l in
+  let s1 := sync_ev s l (SLockQ l) in
+  let s2 := set_loop s1 l (lset_pc (lset_pending (lset_wq x (l_wq x ++ [r])) true) LReady) in
+  let s3 := set_rst s2 r Cancelled in
+  let s4 := sync_ev s3 l (SUnlockQ l) in
+  InvX c (advance c l (emit s4 (ECancel r l 0%Z))).
+Proof.
+  intros H Hpc x s1 s2 s3 s4. apply InvX_advance.
+  - unfold InvX.
+    eapply IV_ext;
+      [apply (IV_cancel3 c (Q s) (nreq s) (reqs s) (runof s) (lp s)
+                (ESync l (SUnlockQ l) :: ESync l (SLockQ l) :: trace s) l r
+                (lset_pc (lset_pending (lset_wq x (l_wq x ++ [r])) true) LReady));
+       [apply IV_neutral; [exact I|]; apply IV_neutral; [exact I|]; exact H | exact Hpc | ..] | ..];
+      try reflexivity.
+  - cbn. unfold updf. rewrite Nat.eqb_refl. reflexivity.
+Qed.
+
+Lemma InvX_lworkdone c l s :
+  InvX c s -> l_pc (lp s l) = LWorkDone ->
+  let x := lp s l in
+  let s1 := sync_ev (sync_ev s l (SLockQ l)) l (SUnlockQ l) in
+  let x1 := lset_pc (lset_in_done (lset_local (lset_wq x []) (l_wq x)) true) LReady in
+  InvX c (deliver c l (l_local x1) (set_loop s1 l x1)).
+Proof.
+  intros H Hpc x s1 x1.
+  assert (Hd : l_in_done (lp s l) = false) by (apply (InvX_wd c); auto).
+  assert (Hloc : l_local (lp s l) = []) by (apply (InvX_local c); auto).
+  apply InvX_deliver; try (rewrite lp_set_loop_same; reflexivity).
+  apply InvX_set_loop.
+  - apply InvX_shape with (s := s); [|reflexivity|exact H].
+    eapply shape_trans; apply shape_sync.
+  - cbn. fold x. unfold x. rewrite Hloc, app_nil_r. reflexivity.
+  - intros X. discriminate.
+  - intros r. cbn. rewrite Hpc. discriminate.
+  - intros r. discriminate.
+  - intros r. discriminate.
+  - intros [X|X]; discriminate.
+Qed.
+
+Lemma InvX_lcancel2_yes c l r s :
+  InvX c s -> l_pc (lp s l) = LCancel2 r ->
+  (r_st (reqs s r) = Queued \/ r_st (reqs s r) = Cancelled) ->
+  let x := lp s l in
+  let s0 := sync_ev s l (SLockQ l) in
+  let s2 := set_loop (set_sp (set_wq s0 (remw r (wq s0))) (rem r (sp s0))) l
+                     (lset_local (lset_wq x (rem r (l_wq x))) (rem r (l_local x))) in
+  let s3 := set_gmutex (sync_ev (sync_ev s2 l (SUnlockQ l)) l SUnlock) None in
+  let s4 := set_rst (set_rwork s3 r WCancelled) r Limbo in
+  InvX c (set_loop s4 l (lset_pc (lp s4 l) (LCancel3 r))).
+Proof.
+  intros H Hpc Hst x s0 s2 s3 s4. unfold InvX.
+  eapply IV_ext;
+    [apply (IV_cancel_yes c (Q s) (nreq s) (reqs s) (runof s) (lp s)
+              (ESync l SUnlock :: ESync l (SUnlockQ l) :: ESync l (SLockQ l) :: trace s) l r
+              (lset_pc (lset_local (lset_wq x (rem r (l_wq x))) (rem r (l_local x))) (LCancel3 r)));
+     [apply IV_neutral; [exact I|]; apply IV_neutral; [exact I|]; apply IV_neutral; [exact I|]; exact H
+     | exact Hpc | exact Hst | ..] | ..];
+    try reflexivity.
+  - change (wq_reqs (remw r (wq s)) ++ rem r (sp s) = rem r (wq_reqs (wq s) ++ sp s)).
+    rewrite wq_reqs_remw, rem_app. reflexivity.
+  - intros r0. cbn. unfold updf, with_ws. rewrite Nat.eqb_refl.
+    destruct (Nat.eqb r0 r); reflexivity.
+  - intros l0. cbn. unfold updf. rewrite Nat.eqb_refl. destruct (Nat.eqb l0 l); reflexivity.
+Qed.
+
+Lemma InvX_lcancel2_no c l r s :
+  InvX c s -> l_pc (lp s l) = LCancel2 r ->
+  let s0 := sync_ev s l (SLockQ l) in
+  let s3 := set_gmutex (sync_ev (sync_ev s0 l (SUnlockQ l)) l SUnlock) None in
+  InvX c (advance c l (set_loop (emit s3 (ECancel r l UV_EBUSY)) l (lset_pc (lp s3 l) LReady))).
+Proof.
+  intros H Hpc s0 s3. apply InvX_advance; [|rewrite lp_set_loop_same; reflexivity].
+  apply InvX_set_loop.
+  - apply InvX_shape with (s := s); [|reflexivity|exact H].
+    eapply shape_trans; [apply shape_sync|]. eapply shape_trans; [apply shape_sync|].
+    eapply shape_trans; [apply shape_sync|]. eapply shape_trans; [apply shape_set_gmutex|].
+    apply shape_emit. cbn. discriminate.
+  - reflexivity.
+  - intros X. apply (InvX_local c s l); [exact H|exact X].
+  - intros r0. cbn. rewrite Hpc. discriminate.
+  - intros r0. discriminate.
+  - intros r0. discriminate.
+  - intros [X|X]; discriminate.
+Qed.
+
+Lemma InvX_lstep c l aux s s' :
+  l < c_loops c -> InvX c s -> lstep c l aux s = Some s' -> InvX c s'.
+Proof.
+  intros Hl H. unfold lstep. cbv zeta. destruct (l_pc (lp s l)) eqn:Hpc.
+  - (* LReady *)
+    destruct (cur_op (lp s l)) as [o|] eqn:Eop; [|discriminate]. destruct o as [k|r|].
+    + destruct (is_free (gmutex s)); [|discriminate]. intros E. apply Some_inj in E. subst s'.
+      destruct (InvX_submit c l aux k s H Hl Hpc) as [X1 X2]. cbv zeta in X1, X2.
+      apply InvX_advance; [exact X1|exact X2].
+    + destruct (valid_cancel s l r) eqn:Ev.
+      * destruct (is_free (gmutex s)); [|discriminate]. intros E. apply Some_inj in E. subst s'.
+        unfold valid_cancel in Ev. apply andb_true_iff in Ev. destruct Ev as [Ev Ev3].
+        apply andb_true_iff in Ev. destruct Ev as [Ev1 Ev2]. apply Nat.eqb_eq in Ev2.
+        unfold InvX.
+        eapply IV_ext;
+          [apply (IV_cancel_enter c (Q s) (nreq s) (reqs s) (runof s) (lp s)
+                    (ESync l SLock :: trace s) l r (lset_pc (lp s l) (LCancel2 r)));
+           [apply IV_neutral; [exact I|exact H] | exact Hpc | .. ] | ..];
+          try reflexivity; assumption.
+      * intros E. apply Some_inj in E. subst s'. apply InvX_advance; [|exact Hpc].
+        apply InvX_shape with (s := s); [apply shape_sync|reflexivity|exact H].
+    + destruct (l_cb (lp s l)) as [|o ops] eqn:Ecb.
+      * assert (Hd : l_in_done (lp s l) = false).
+        { unfold cur_op in Eop. rewrite Ecb in Eop. destruct (l_in_done (lp s l)); [discriminate|reflexivity]. }
+        destruct (Nat.eqb (l_active (lp s l)) 0).
+        { intros E. apply Some_inj in E. subst s'. apply InvX_advance; [|exact Hpc].
+          apply InvX_shape with (s := s); [|reflexivity|exact H].
+          eapply shape_trans; [apply shape_sync|]. apply shape_emit. exact I. }
+        destruct (l_pending (lp s l)).
+        { intros E. apply Some_inj in E. subst s'. apply InvX_set_loop.
+          - apply InvX_shape with (s := s); [apply shape_sync|reflexivity|exact H].
+          - reflexivity.
+          - intros X. apply (InvX_local c s l); [exact H|exact X].
+          - intros r0. cbn. rewrite Hpc. discriminate.
+          - intros r0. discriminate.
+          - intros r0. discriminate.
+          - intros _. exact Hd. }
+        intros E. apply Some_inj in E. subst s'. apply InvX_advance; [|exact Hpc].
+        apply InvX_shape with (s := s); [|reflexivity|exact H].
+        eapply shape_trans; [apply shape_sync|]. apply shape_emit. exact I.
+      * intros E. apply Some_inj in E. subst s'. apply InvX_advance; [|exact Hpc].
+        apply InvX_shape with (s := s); [apply shape_sync|reflexivity|exact H].
+  - (* LCancel2 *)
+    cbn [wq sp reqs sync_ev emit].
+    assert (Hc := cancel_bool s l r).
+    assert (Hc2 := IV_cancel_cond c _ _ _ _ _ _ l r H Hpc). fold (Q s) in Hc2.
+    match type of Hc with (?b = true <-> _) => destruct b eqn:Ec end.
+    + intros E. apply Some_inj in E. subst s'.
+      apply (InvX_lcancel2_yes c l r s H Hpc). apply Hc2. apply Hc. reflexivity.
+    + intros E. apply Some_inj in E. subst s'.
+      apply (InvX_lcancel2_no c l r s H Hpc).
+  - intros E. apply Some_inj in E. subst s'. apply (InvX_lcancel3 c l r s H Hpc).
+  - intros E. apply Some_inj in E. subst s'. apply (InvX_lworkdone c l s H Hpc).
+  - destruct (l_pending (lp s l)); [|discriminate].
+    intros E. apply Some_inj in E. subst s'. apply InvX_set_loop.
+    + apply InvX_shape with (s := s); [apply shape_sync|reflexivity|exact H].
+    + reflexivity.
+    + intros X. apply (InvX_local c s l); [exact H|exact X].
+    + intros r0. cbn. rewrite Hpc. discriminate.
+    + intros r0. discriminate.
+    + intros r0. discriminate.
+    + intros _. apply (InvX_wd c s l); auto.
+  - discriminate.
+Qed.
+
+Lemma InvX_step c s t aux s' : InvX c s -> step c s t aux = Some s' -> InvX c s'.
+Proof.
+  intros H. unfold step. destruct (Nat.ltb_spec t (c_loops c)).
+  - apply InvX_lstep; assumption.
+  - destruct (Nat.ltb_spec (t - c_loops c) (c_n c)); [|discriminate].
+    apply InvX_wstep; [lia|assumption].
+Qed.
+
+Theorem invX_reachable : forall c progs s, reachable c progs s -> InvX c s.
+Proof.
+  intros c progs. apply reachable_ind.
+  - apply InvX_init.
+  - intros s t aux s' _ H E. eapply InvX_step; eauto.
+Qed.
+
+Theorem invA_reachable : forall c progs s, reachable c progs s -> InvA c s.
+Proof. intros c progs s H. apply InvX_InvA. eapply invX_reachable; eauto. Qed.
+
+Print Assumptions invA_reachable.
